@@ -11,12 +11,14 @@ playlist.go statement by statement; the `t1_*` theorems pin the model's literal 
 tables regenerated from the Go source on every run (`Hls.Gen.PlaylistMulti`).
 
 Floats.  `strconv.FormatFloat / ParseFloat` and float64 arithmetic are modelled exactly by the
-soft float `F64`.  Where a statement depends on their numerical behaviour (EXT-X-START
-TIME-OFFSET, FRAME-RATE) it carries the hypothesis `FloatOK p`: "the tie/±1 ns envelope of
-DESIGN §2 holds at the float fields of `p`" — a decidable condition, evaluated by the model
-driver on every generated value.  `c14_floatok_of_envelope` derives it for every well-formed
-value from the envelope propositions `FloatEnvelope`, `FloatEnvelope3` (trusted base, §7.3),
-`c14_floatok_nofloat` shows it is vacuous for values without float fields.
+soft float `F64`.  FRAME-RATE needs nothing beyond that model (`FrFloatOK_of_WF`: the 3-decimal
+text of a well-formed frame rate parses back to it, by the definitions of `FormatFloat` and
+`ParseFloat` alone).  Where a statement depends on the NUMERICAL behaviour of float arithmetic —
+only EXT-X-START TIME-OFFSET — it carries the hypothesis `StartFloatOK p`: "the tie/±1 ns
+envelope of DESIGN §2 holds at `p`'s TIME-OFFSET" — a decidable condition, evaluated by the model
+driver on every generated value.  `c14_startfloatok_of_envelope` derives it for every well-formed
+value from the envelope proposition `FloatEnvelope` (trusted base, §7.3); it is vacuous for
+values without EXT-X-START.
 -/
 namespace Hls.Props.C14Multi
 open Hls.Playlist
@@ -101,15 +103,15 @@ example : WFAttrs [(c!"BANDWIDTH", .unquoted c!"1"), (c!"CODECS", .quoted c!"a,b
     `Rendition` (Type, GroupID, Name, Language, Autoselect, Default, Forced, Channels, URI, InStreamID —
     the whole list is equal), and `Start.TimeOffset` rounded to the 10 µs of the text form
     (`StartQuant`: nearest, either neighbour at a tie, ±1 ns). -/
-theorem c14_multivariant_roundtrip (p : Multivariant) (h : WFMultivariant p) (hf : FloatOK p) :
+theorem c14_multivariant_roundtrip (p : Multivariant) (h : WFMultivariant p) (hf : StartFloatOK p) :
     ∃ p' : Multivariant, Multivariant.unmarshal p.marshal = .ok p' ∧
       p'.version = p.version ∧ p'.independentSegments = p.independentSegments ∧
       StartQuant p.start p'.start ∧ p'.variants = p.variants ∧ p'.renditions = p.renditions := by
-  obtain ⟨st', h1, h2, _⟩ := unmarshal_marshal h hf
+  obtain ⟨st', h1, h2, _⟩ := unmarshal_marshal h (FloatOK_of_start h hf)
   exact ⟨_, h1, rfl, rfl, h2, rfl, rfl⟩
 
 /-- per field, for the i-th variant and the j-th rendition -/
-theorem c14_multivariant_roundtrip_fields (p : Multivariant) (h : WFMultivariant p) (hf : FloatOK p) :
+theorem c14_multivariant_roundtrip_fields (p : Multivariant) (h : WFMultivariant p) (hf : StartFloatOK p) :
     ∃ p' : Multivariant, Multivariant.unmarshal p.marshal = .ok p' ∧
       (∀ (i : Nat) (v : Variant), p.variants[i]? = some v → ∃ v' : Variant, p'.variants[i]? = some v' ∧
         v'.bandwidth = v.bandwidth ∧ v'.averageBandwidth = v.averageBandwidth ∧ v'.codecs = v.codecs ∧
@@ -119,18 +121,28 @@ theorem c14_multivariant_roundtrip_fields (p : Multivariant) (h : WFMultivariant
         r'.type = r.type ∧ r'.groupID = r.groupID ∧ r'.name = r.name ∧ r'.language = r.language ∧
         r'.autoselect = r.autoselect ∧ r'.default = r.default ∧ r'.forced = r.forced ∧
         r'.channels = r.channels ∧ r'.uri = r.uri ∧ r'.inStreamID = r.inStreamID) := by
-  obtain ⟨st', h1, _, _⟩ := unmarshal_marshal h hf
+  obtain ⟨st', h1, _, _⟩ := unmarshal_marshal h (FloatOK_of_start h hf)
   refine ⟨_, h1, ?_, ?_⟩
   · intro i v hv; exact ⟨v, hv, rfl, rfl, rfl, rfl, rfl, rfl, rfl, rfl, rfl, rfl⟩
   · intro j r hr; exact ⟨r, hr, rfl, rfl, rfl, rfl, rfl, rfl, rfl, rfl, rfl, rfl⟩
 
-/-- `FloatOK` follows from the float envelope for every well-formed value … -/
-theorem c14_floatok_of_envelope (env : FloatEnvelope) (env3 : FloatEnvelope3) (p : Multivariant)
-    (h : WFMultivariant p) : FloatOK p := FloatOK_of_envelope env env3 h
+/-- `StartFloatOK` follows from the float envelope for every well-formed value … -/
+theorem c14_startfloatok_of_envelope (env : FloatEnvelope) (p : Multivariant) (h : WFMultivariant p) :
+    StartFloatOK p := OptAll_imp h.2.1 (fun _ ht => DurFloatOK_of_envelope env ht)
 
-/-- … and holds outright for values without EXT-X-START and FRAME-RATE. -/
-theorem c14_floatok_nofloat (p : Multivariant) (hs : p.start = none) (hv : ∀ v ∈ p.variants, v.frameRate = none) :
-    FloatOK p := FloatOK_of_nofloat hs hv
+/-- … and holds outright for values without EXT-X-START (whatever their frame rates). -/
+theorem c14_startfloatok_nostart (p : Multivariant) (hs : p.start = none) : StartFloatOK p := by
+  unfold StartFloatOK; rw [hs]; trivial
+
+/-- hence the round trip is unconditional for playlists without EXT-X-START -/
+theorem c14_multivariant_roundtrip_nostart (p : Multivariant) (h : WFMultivariant p) (hs : p.start = none) :
+    Multivariant.unmarshal p.marshal = .ok p := by
+  obtain ⟨st', h1, h2, _⟩ := unmarshal_marshal h (FloatOK_of_start h (c14_startfloatok_nostart p hs))
+  rw [h1]
+  rw [hs] at h2
+  cases st' with
+  | none => cases p; simp_all
+  | some t => exact absurd h2 id
 
 /-- The full statement of the property for this half. -/
 def C14MultivariantRoundtrip : Prop :=
@@ -139,15 +151,15 @@ def C14MultivariantRoundtrip : Prop :=
       p'.version = p.version ∧ p'.independentSegments = p.independentSegments ∧
       StartQuant p.start p'.start ∧ p'.variants = p.variants ∧ p'.renditions = p.renditions
 
-/-- The full statement, with the missing lemma (the float envelope of the soft float) as named hypotheses. -/
-theorem c14_multivariant_roundtrip_partial (env : FloatEnvelope) (env3 : FloatEnvelope3) : C14MultivariantRoundtrip :=
-  fun p h => c14_multivariant_roundtrip p h (FloatOK_of_envelope env env3 h)
+/-- The full statement, with the missing lemma (the float envelope of the soft float) as a named hypothesis. -/
+theorem c14_multivariant_roundtrip_partial (env : FloatEnvelope) : C14MultivariantRoundtrip :=
+  fun p h => c14_multivariant_roundtrip p h (c14_startfloatok_of_envelope env p h)
 
 /-- `c14_multi_fixpoint`: `Marshal` is a fixpoint on its own output — the decoded value marshals to
     the same bytes. -/
-theorem c14_multi_fixpoint (p : Multivariant) (h : WFMultivariant p) (hf : FloatOK p) :
+theorem c14_multi_fixpoint (p : Multivariant) (h : WFMultivariant p) (hf : StartFloatOK p) :
     ∃ p' : Multivariant, Multivariant.unmarshal p.marshal = .ok p' ∧ p'.marshal = p.marshal := by
-  obtain ⟨st', h1, _, h3⟩ := unmarshal_marshal h hf
+  obtain ⟨st', h1, _, h3⟩ := unmarshal_marshal h (FloatOK_of_start h hf)
   refine ⟨_, h1, ?_⟩
   unfold Multivariant.marshal
   cases st' <;> cases hp : p.start <;> simp_all [Option.map]
@@ -242,7 +254,7 @@ theorem c14_variants_multi (p : Multivariant) (h : WFMultivariant p) :
     rw [e]
     exact (unmarshal_snoc_nl hcr').symm
 
-example : ∃ p : Multivariant, WFMultivariant p ∧ FloatOK p :=
+example : ∃ p : Multivariant, WFMultivariant p ∧ StartFloatOK p :=
   ⟨{ version := 3, variants := [{ bandwidth := 1, codecs := [c!"avc1"], uri := c!"a.m3u8" }] }, by decide, by decide⟩
 
 end Hls.Props.C14Multi
